@@ -70,7 +70,19 @@ var c16shardAfter int
 // exploration (Emmi, Qadeer, Rakamaric, POPL 2011) instead of preemption bounding.
 var c16delayBound bool
 
+// c16free: run the harness bodies WITHOUT the scheduler (shims fall through to the native
+// operations) in a binary compiled with the Go race detector - the cross-check for unsynchronised
+// accesses that a cooperative scheduler cannot see (its hand-offs are happens-before edges).
+var c16free bool
+
 func schedule(c *mc.Ctx, body func()) *verifrt.Sched {
+	if c16free {
+		c.Shard()
+		c.SetCrashClass("free-running")
+		body()
+		c.Count("free_runs", 1)
+		return &verifrt.Sched{}
+	}
 	s := &verifrt.Sched{Horizon: 4000}
 	decisions := 0
 	shardPoint := func() {
@@ -181,6 +193,9 @@ func c16IngestPool(c *mc.Ctx, workers int) {
 	caps := []int{0, 1, 10}
 	if c.Thorough() {
 		nblocks = 2 + c.Choose(2) // 2..3 blocks of 3 rows (last one shorter)
+	}
+	if c16free {
+		nblocks = []int{2, 5, 9}[c.Choose(3)]
 	}
 	chanCap := caps[c.Choose(len(caps))]
 	failAt := c.Choose(1 + 2*nblocks) // 0 = healthy store; k = the k-th object-store write fails
@@ -457,6 +472,7 @@ func runMergeSched(base *storedTable, others []*storedTable) (*mergeOutcome, err
 	}
 	out := &mergeOutcome{db: db}
 	var cd *diff.ColDiff
+	var pending []*merge.Merge
 	for {
 		m, ok := verifrt.Recv(mch)
 		if !ok {
@@ -466,6 +482,10 @@ func runMergeSched(base *storedTable, others []*storedTable) (*mergeOutcome, err
 			cd = m.ColDiff
 			continue
 		}
+		pending = append(pending, m)
+	}
+	// as the CLI does: drain the channel, then discard the conflicts
+	for _, m := range pending {
 		out.conflicts = append(out.conflicts, fmt.Sprintf("%x", m.PK))
 		if err := merger.SaveResolvedRow(m.PK, nil); err != nil {
 			return nil, err
@@ -501,6 +521,34 @@ func runMergeSched(base *storedTable, others []*storedTable) (*mergeOutcome, err
 	return out, nil
 }
 
+// c16Race: every harness configuration above, free-running under the Go race detector, several
+// repetitions each. A race report ends the worker process (GORACE=halt_on_error) and is reported
+// as class crash:free-running:data-race.
+func c16Race(c *mc.Ctx) {
+	pipeline := c.Choose(6)
+	reps := 6
+	if c.Thorough() {
+		reps = 40
+	}
+	c.Choose(reps) // repetition index
+	c16free = true
+	defer func() { c16free = false }()
+	switch pipeline {
+	case 0:
+		c16IngestPool(c, 2)
+	case 1:
+		c16IngestPool(c, 3)
+	case 2:
+		c16IngestPool(c, 4)
+	case 3:
+		c16SorterIngest(c)
+	case 4:
+		c16Diff(c)
+	case 5:
+		c16MergeWith(c, true)
+	}
+}
+
 func init() {
 	sched := func(name string, body func(*mc.Ctx), q, t int) *mc.Harness {
 		return &mc.Harness{Name: name, Variant: "sched", Body: body, Procs: 1, DevBound: map[string]int{"quick": q, "thorough": t},
@@ -509,9 +557,10 @@ func init() {
 	register(&mc.Check{
 		ID:    "C16",
 		Level: "model_checking",
-		Rule: "stateless schedule exploration (DFS over scheduler decisions with iterative preemption bounding) of the REAL pipeline code under a cooperative scheduler: every go statement, channel send / receive / range / close, reflect.Select, WaitGroup and Mutex operation of inserter.go, sorter.go, diff.go, merger.go, row_collector.go is rewritten at build time into a scheduling point; channel contents live in the scheduler. " +
+		Rule: "stateless schedule exploration (DFS over scheduler decisions with iterative preemption bounding) of the REAL pipeline code under a cooperative scheduler: every go statement, channel send / receive / range / close, reflect.Select, WaitGroup operation and Mutex lock AND unlock of inserter.go, sorter.go, diff.go, merger.go, row_collector.go is rewritten at build time into a scheduling point; channel contents live in the scheduler. " +
 			"Harnesses: ingest worker pool (2..3 blocks of 3 rows, 2..3 workers, block channel capacity 0/1/10, each object-store write failing in turn); sorter producer -> inserter with and without a spilled chunk; differ + consumer (with failing store reads); merger (two differs, select loop, collector) + consumer for three merge shapes - five threads over unbuffered channels, explored with DELAY bounding (every departure from the deterministic default schedule counts) instead of preemption bounding. " +
 			"Every complete schedule within the preemption bound must end (no deadlock / livelock within the horizon), have no send on closed / double close, no happens-before data race on the inserter's shared fields (vector clocks), return the 1-worker sequential result, and report an injected store error to the caller. " +
+			"Cross-check (harness race-detector-free-running, NOT an enumeration of schedules): the same harness bodies, with 2..4 workers and up to 9 blocks, run without the scheduler in a binary compiled with the Go race detector, 6 (thorough 40) repetitions per configuration; any race report is a violation - this covers unsynchronised accesses the cooperative scheduler cannot see. " +
 			"states = distinct (harness, configuration) roots; transitions = scheduling steps; traces_validated_against_impl = complete schedules, all executed on the implementation",
 		Assumptions: []string{
 			"sequential consistency at the granularity of the rewritten operations; the hardware memory model below that is not modelled",
@@ -525,6 +574,8 @@ func init() {
 			sched("sorter-ingest", c16SorterIngest, 2, 3),
 			sched("differ", c16Diff, 2, 3),
 			sched("merger-delay-bounded", c16Merge, 3, 5),
+			{Name: "race-detector-free-running", Variant: "race", Body: c16Race, Procs: 4,
+				Budget: map[string]time.Duration{"quick": 60 * time.Second, "thorough": 10 * time.Minute}},
 			{Name: "merger-preemption-bounded", Variant: "sched", OnlyTier: "thorough", Body: c16MergePreempt, Procs: 1, DevBound: map[string]int{"thorough": 0},
 				Budget: map[string]time.Duration{"thorough": 10 * time.Minute}},
 		},
